@@ -148,6 +148,8 @@ def rhs_alphabet(pattern, key_idx):
     out.append(dict(kind="ndarray"))
     out.append(dict(kind="ndarray-ro"))      # exact shape, a read-only view of a writable buffer
     out.append(dict(kind="ndarray-bcast"))   # exact shape, produced by np.broadcast_to (read-only, zero strides)
+    out.append(dict(kind="ndarray-int"))     # exact shape, int64 entries (another dtype than the target's)
+    out.append(dict(kind="ndarray-f32"))     # exact shape, float32 entries
     if not has_list:
         rl = region.letters
         dropped = [l for l, s in zip(DIMS, sel) if s[0] == "item"]
@@ -166,6 +168,10 @@ def rhs_alphabet(pattern, key_idx):
             out.append(dict(kind="flodym", dims="".join(["d"] + list(reversed(rl)) + [surplus_pool[1]]), note="surplus2"))
         else:
             out.append(dict(kind="flodym", dims="".join(["e"] + list(rl) + ["d"]), note="surplus2"))
+        # a surplus dimension with ZERO items: the sum over it is an empty sum, the region is filled with zeros
+        out.append(dict(kind="flodym", dims="".join(list(rl) + ["z"]), note="empty-surplus"))
+        if rl:
+            out.append(dict(kind="flodym", dims="".join(["z"] + list(rl[1:])), note="empty-lacking"))
         for lack in rl:
             rest = [l for l in rl if l != lack]
             out.append(dict(kind="flodym", dims="".join(rest), note="lacking"))
@@ -191,7 +197,7 @@ def ops_for(pattern):
     ops = []
     for ki in range(len(keys_for(pattern))):
         for r in rhs_alphabet(pattern, ki):
-            if pattern == "522" and (r["kind"] == "nd-bad" or r.get("note") in ("surplus2", "lacking")):
+            if pattern == "522" and (r["kind"] == "nd-bad" or r.get("note") in ("surplus2", "lacking", "empty-surplus", "empty-lacking")):
                 continue
             ops.append(dict(key=ki, rhs=r, idx=len(ops) + 1))
     return ops
@@ -259,6 +265,13 @@ def make_rhs(st, op, region):
         v = int(tag) + 3
         return v, {lab: float(v) for lab in region.labels()}
     shape = tuple(len(region.items[l]) for l in region.letters)
+    if r["kind"] in ("ndarray-int", "ndarray-f32"):
+        vals = np.zeros(shape, dtype=np.int64 if r["kind"] == "ndarray-int" else np.float32)
+        eff = {}
+        for k, idx in enumerate(itertools.product(*[range(n) for n in shape])):
+            vals[idx] = int(tag) + 3 * k + 2
+            eff[tuple(region.items[l][i] for l, i in zip(region.letters, idx))] = float(int(tag) + 3 * k + 2)
+        return vals, eff
     if r["kind"] == "ndarray":
         vals = np.zeros(shape)
         eff = {}
@@ -302,6 +315,9 @@ def make_rhs(st, op, region):
             else:
                 orig = DIMS[[c06.SUBL[S.LETTERS.index(x)] for x in DIMS].index(l)]
                 dl.append(S.make_dimension(l, its[l], name="Sub" + orig.upper()))
+        elif l == "z":
+            its[l] = ()
+            dl.append(S.make_dimension("z", (), name="Zeta"))
         else:
             its[l] = st.items[l] if l in st.items else S.items_for("all2")[l]
             dl.append(S.make_dimension(l, its[l]))
@@ -379,6 +395,10 @@ def apply_op(st, op, check):
             obs2 = observe.arr(st.X)
             if st.m.diff(obs2):
                 return fail("not-copied", "changing the assigned ndarray afterwards changed the target")
+    if op["rhs"]["kind"] in ("ndarray-int", "ndarray-f32") and st.X.values.dtype != np.float64:
+        # a whole-array assignment adopts the ndarray's dtype (numpy semantics, not addressed by the statement); the
+        # exploration continues from a float64 target again - through the public route, with the same entries
+        st.X[...] = st.X.values.astype(np.float64)
     return "written", None
 
 
